@@ -84,6 +84,10 @@ import IbicusModel.Lemmas.GenDebiasers
 #print axioms Lemmas.GenDebiasers.linearScalingS_multiplicative
 #print axioms Lemmas.GenDebiasers.deltaChangeS_additive
 #print axioms Lemmas.GenDebiasers.deltaChangeS_multiplicative
+#print axioms Props.C02.isimip_default_variables_shift
+-- tier A: the additive variables of the regenerated ISIMIP settings table
+#print axioms Lemmas.C02.additive_variables_cfg
+#print axioms Lemmas.C02.additive_variables_complete
 -- round 4: helper theorems the new property theorems rest on
 #print axioms Lemmas.C02.applyOnWindow_add_linear
 #print axioms Lemmas.C02.applyOnWindow_length
